@@ -14,6 +14,12 @@ CLAIMED = {
             "summary = write on the expanded zero tree, summarize keeps the root. Tie to code: tree.py getter/setter/"
             "summarize_into run against the model on generated trees x gindices x expand.",
             "Coq proof by induction over paths + vm_compute correspondence with tree.py", "5 (C07)"),
+    "C13": ("Theorems (Coq, every width w>=0, every operand): constructor accepts exactly [0,2^w); coercing operators "
+            "(+ - * // % & | ^, both operand orders, same-type or plain-int operand) return the exact mathematical result "
+            "or ValueError / ZeroDivisionError, never a wrapped or widened value; other-width operands refused; bitwise "
+            "and div/mod never overflow; shifts = (a*2^s) mod 2^w and a/2^s; ~a = 2^w-1-a; neg/truediv unsupported. "
+            "Tie to code: basic.py operators run against the model on boundary/random operands for all six widths.",
+            "Coq proof (lia + Z bit lemmas) + vm_compute correspondence with basic.py", "5 (C13)"),
 }
 TODO_REASON = "machinery for this property is not built yet (work in progress; see DESIGN.md section 8 order)"
 props = [json.loads(l) for l in open(os.path.join(V, "properties.jsonl"))]
